@@ -60,6 +60,10 @@ CLAIMED = {
     'C20': ('5-C20', 'Presence of every environment variable, existence of every candidate file / store location and presence of each '
             'file key are solver Booleans; result compared with the precedence decision table; transport URIs over all supported '
             'and unsupported schemes. Strings are concrete: the solver explores the presence/existence vector (stated). Bounded.'),
+    'C02': ('5-C02', 'A recording wrapper captures the views handed to each shipped signer; they, the parser-reported ranges and the '
+            'digest are compared symbolically with the signed portion delimited by the reference reader; every single-byte '
+            'substitution (symbolic value), truncation and TLV-level edit of signed packets must be rejected by the parser or the '
+            'real verifier (on the ideal, unforgeable primitives) unless signed portion and signature are unchanged. Bounded.'),
 }
 NOT_YET = 'check not built yet in this revision of /verif (planned in DESIGN.md section 5)'
 NA = {
